@@ -98,10 +98,42 @@ Definition run_entry_json (j irj : json) : json :=
   | _, _, _, _ => rerr "decode" "missing ep/globals/args/fuel"
   end.
 
+(* {"pass":"runs", "ir":dump, "ep":i, "fuel":n, "lenient":bool, "inputs":[{"globals":[..], "args":[..]}, ...]}:
+   the module is decoded once and run on every input; {"ok":true, "results":[<as "run">, ...]} *)
+Definition run_one (m : module) (ep fuel : Z) (inp : json) : json :=
+  match field_arr "globals" inp, field_arr "args" inp with
+  | Some gs, Some args =>
+    match map_opt opt_value gs, map_opt (value_of_json 64) args with
+    | Some gvals, Some avals =>
+      match run_entry (Z.to_nat fuel) m (Z.to_nat ep) gvals avals with
+      | Done (gs', ret) =>
+        JObj [("ok", JBool true); ("globals", JArr (map json_of_value gs'));
+              ("ret", match ret with Some v => json_of_value v | None => JNull end)]
+      | OutOfFuel => rerr "outoffuel" ""
+      | Fail msg => rerr "fail" msg
+      end
+    | _, _ => rerr "decode" "bad value encoding in globals/args"
+    end
+  | _, _ => rerr "decode" "missing globals/args"
+  end.
+
+Definition runs_entry_json (j irj : json) : json :=
+  match field_num "ep" j, field_arr "inputs" j, field_num "fuel" j with
+  | Some ep, Some inputs, Some fuel =>
+    match dec_module irj with
+    | Err msg => rerr "decode" msg
+    | Ok m0 =>
+      let m := match field_bool "lenient" j with Some true => lenient (phi_tables irj) m0 | _ => m0 end in
+      JObj [("ok", JBool true); ("results", JArr (map (run_one m ep fuel) inputs))]
+    end
+  | _, _, _ => rerr "decode" "missing ep/inputs/fuel"
+  end.
+
 Definition entry (j : json) : json :=
   match field_str "pass" j, field "ir" j with
   | Some p, Some irj =>
     if String.eqb p "run" then run_entry_json j irj else
+    if String.eqb p "runs" then runs_entry_json j irj else
     match dec_module irj with
     | Err msg => JObj [("ok", JBool false); ("err", JStr msg)]
     | Ok m =>
